@@ -73,7 +73,9 @@ CLAIMS = {
         text="For final-state templates (compound, parallel regions, nested parallels, top-level final with queued events, "
              "cancel) and generated documents with finals: the observed done.state.* enqueues (order, exactly once), the "
              "absence of any step after a top-level final, the onexit marks of exitInterpreter in exit order and the "
-             "reported final configuration must equal the model's. Not covered: donedata payload, done.invoke (C14).",
+             "reported final configuration must equal the model's; the payload of every done.state event (<donedata> params evaluated "
+             "when the final state has been entered, after transition content and the final's onentry; none for the done event of a "
+             "parallel) is compared as text with Sem.DonePayload. done.invoke is decided by C14.",
         note=CORE_NOTE),
     "C08": dict(
         category="model_checking", design_ref="4/C08",
@@ -107,7 +109,9 @@ CLAIMS = {
              "(Integer saturating arithmetic incl. symbolic i64 MAX/MIN, Double as exact rational, string/array/map aggregation, "
              "structural equality); the engine must return the same value through the parser, a freshly compiled datamodel "
              "expression and the cached compilation, and for whitespace / redundant-parenthesis variants of the text. Cases the "
-             "documentation leaves undefined are not judged. Member/index/assignment forms are not covered yet.",
+             "documentation leaves undefined are not judged. Store.tla enumerates programs (statement [; statement] [; read]) over a "
+             "fixed store - member / index reads, '=' and '?=' on declared, undeclared and read-only variables, members and elements - "
+             "with the set of allowed (result, store) outcomes; the engine's result and store dump must be one of them.",
         note="Trusted: Expr.tla as the reading of the documented semantics; the harness' value encoding; Doubles compared within 1e-12."),
     "C11": dict(
         category="model_checking", design_ref="4/C11",
